@@ -624,7 +624,8 @@ class _G:
         c = self.pick(list(self.cols))
         if self.cols[c] == "obj":
             return None
-        st = {"op": "getcol", "col": c, "attr": bool(self.r.random() < 0.3 and c.isidentifier())}
+        # attribute access only for names that are not DataFrame attributes (df.T is the transpose)
+        st = {"op": "getcol", "col": c, "attr": bool(self.r.random() < 0.3 and c.isidentifier() and not hasattr(pd.DataFrame, c))}
         return self._commit_series(st, "project:single", self.cols[c], c if c in self.prist else None, c)
 
     def s_filter(self):
@@ -667,7 +668,7 @@ class _G:
                     cands = [j for j in range(self.last_filter, now + 1) if self.schemas[j] is not None]
                     at = self.pick(cands)
                     base = self.schemas[at]
-                if mode == "lambda" and items and r.random() < 0.5:
+                if mode == "lambda" and items:
                     base = cols     # callables see the frame with the earlier keyword arguments applied (both libraries)
                 e, kind, kl = self.any_expr(base)
                 items.append([name, e, mode, at])
@@ -1099,7 +1100,10 @@ def ev(e, df, env):
     if t == "catm":
         x = ev(e[2], df, env)
         if e[1] in ("as_known", "as_unknown"):
-            return getattr(x.cat, e[1])() if env.is_dask else x
+            if env.is_dask:
+                return getattr(x.cat, e[1])()
+            x.cat       # pandas has no such method: identity, but only for categorical data
+            return x
         return getattr(x.cat, e[1])(*e[3])
     if t == "rename":
         return ev(e[1], df, env).rename(e[2])
